@@ -50,6 +50,17 @@ func c07colliding(x *runner.X, b *builtWorld, cr *dsim.Rand) (solana.PublicKey, 
 	return pk, true
 }
 
+func c07mentions(tx *world.Tx, a solana.PublicKey) bool {
+	for _, l := range [][]solana.PublicKey{tx.Static, tx.LoadedWritable, tx.LoadedReadonly} {
+		for _, k := range l {
+			if k == a {
+				return true
+			}
+		}
+	}
+	return false
+}
+
 func scenarioC07(x *runner.X) {
 	t := x.Tape
 	engineKnobs(nil)
@@ -316,6 +327,12 @@ func scenarioC07(x *runner.X) {
 			}
 			return iplddecoders.DecodeTransaction(raw)
 		}
+		bySigAll := map[solana.Signature]*world.Tx{}
+		for _, b := range ws {
+			for _, tx := range b.w.Txs {
+				bySigAll[tx.Sig()] = tx
+			}
+		}
 		for k := 0; k < 6 && len(addrs) > 0; k++ {
 			a := addrs[t.Intn(len(addrs))]
 			H := hist[a]
@@ -339,9 +356,13 @@ func scenarioC07(x *runner.X) {
 				continue
 			}
 			gotSigs := map[solana.Signature]bool{}
-			nGot := 0
-			for _, txs := range res {
+			nGot, foreign := 0, 0
+			var gotList []string
+			for en, txs := range res {
 				for _, tx := range txs {
+					if sg, err := tx.Signature(); err == nil {
+						gotList = append(gotList, fmt.Sprintf("%s@%d(epoch %d)", sg.String()[:8], tx.Slot, en))
+					}
 					if uint64(tx.Slot) < until || uint64(tx.Slot) >= before {
 						if x.Failf("oracle", "the slot-bounded history read returned a transaction outside the requested slot range", "%s returned slot %d; history slots %v", what, tx.Slot, sigList(H)) {
 							return
@@ -349,9 +370,21 @@ func scenarioC07(x *runner.X) {
 					}
 					if sg, err := tx.Signature(); err == nil {
 						gotSigs[sg] = true
+						if mtx := bySigAll[sg]; mtx != nil && !c07mentions(mtx, a) {
+							foreign++
+						}
 					}
 					nGot++
 				}
+			}
+			if foreign > 0 {
+				// This layer cannot tell an address from one that collides with it in an epoch's pubkey
+				// index (24-bit hash): it hands back the other address's transactions and leaves the
+				// rejection to its callers (the JSON-RPC handler verifies the address per epoch, the
+				// stream filters every transaction). Such extras may also use up the limit, so the
+				// completeness of this answer is not judged.
+				x.Probe("c07.slot-bounded-read-with-colliding-extras")
+				continue
 			}
 			// completeness: the newest `limit` transactions of the history that lie in [until, before)
 			var wantTxs []*world.Tx
@@ -367,7 +400,7 @@ func scenarioC07(x *runner.X) {
 				}
 			}
 			if missing > 0 || nGot != len(wantTxs) {
-				if x.Failf("oracle", "the slot-bounded history read does not return exactly the newest transactions of the slot range", "%s returned %d transactions, %d of the %d expected are missing; expected %v", what, nGot, missing, len(wantTxs), sigList(wantTxs)) {
+				if x.Failf("oracle", "the slot-bounded history read does not return exactly the newest transactions of the slot range", "%s returned %d transactions %v, %d of the %d expected are missing; expected %v; full history %v", what, nGot, gotList, missing, len(wantTxs), sigList(wantTxs), sigList(H)) {
 					return
 				}
 			}
